@@ -20,6 +20,7 @@ def run(rep, idx, tier):
     rep.require("C05.4", 1)
     rep.require("C05.5", 2)
     rep.require("C05.7", 2)
+    rep.require("C05.8", 3)
     c = get_ctx(idx, "csr:Multiplexer.elaborate")
     rep.analysed(c.fi.site)
     rep.count("drivers", len(c.t.drivers))
@@ -77,6 +78,8 @@ def run(rep, idx, tier):
             if foreign:
                 rep.bad("C05.6", site, key, "a register write strobe is driven outside the write-shadow loop", lines=[d.lineno for d in foreign])
     overlaps_taint(rep, idx)
+    from . import glue
+    glue.shadow_hash(rep, idx, "C05.8")
 
 
 def overlaps_taint(rep, idx):
